@@ -1,6 +1,8 @@
 """C12 - FindService is answered only by matching, ready instances, by unicast, in time."""
 import someip.config as C
 
+import random
+
 from .. import conv, scen, stackprop
 
 CODES = {1: "number of unicast answers differs from the number of FindService entries a ready, matching instance had to answer",
@@ -49,6 +51,8 @@ def run(ctx):
     ctx.assumptions = ["answer clauses are judged when the oracle draws are all equal; a FindService at the very instant of a lifecycle change is not judged (order-dependent)"]
     n = 300 if quick else 10000
     scs = stackprop.corpus_scenarios("C12") + [shared_ids_scenario(r) if k % 3 == 2 else (scen.server_scenario(r) if k % 2 else scen.lifecycle_scenario(r)) for k in range(n)]
+    rll = random.Random(ctx.seed * 7919 + 112)     # a stream of its own
+    scs += [scen.link_local_twins(rll) for _ in range(30 if quick else 1000)]
     stackprop.run_scenarios(ctx, scs, 3012, CODES, what="find answers")
 
 
